@@ -368,13 +368,14 @@ Definition rule_target (f : bytes) : bytes :=
 Definition vops_for (sub : bytes -> bytes) (rules : list rule) (k : bytes) : list vop :=
   flat_map (fun r : rule =>
               let '(f, vals) := r in
-              if negb (beq (rule_target f) k) then []
-              else match f with
-                   | c :: _ => if c =? PLUS then [VAdd (map (replace_ph sub) vals)]
-                               else if c =? MINUS then [VDel]
-                               else match rev vals with [] => [] | v :: _ => [VSet (replace_ph sub v)] end
-                   | [] => []
-                   end) rules.
+              let setop := match rev vals with [] => [] | v :: _ => [VSet (replace_ph sub v)] end in
+              match f with
+              | c :: name =>
+                  if c =? PLUS then (if negb (beq (canon_key name) k) then [] else [VAdd (map (replace_ph sub) vals)])
+                  else if c =? MINUS then (if negb (beq (canon_key name) k) then [] else [VDel])
+                  else (if negb (beq (canon_key f) k) then [] else setop)
+              | [] => if negb (beq (canon_key f) k) then [] else setop
+              end) rules.
 Definition revops_for (sub : bytes -> bytes) (res : list rerule) (k : bytes) : list vop :=
   flat_map (fun r : rerule => if beq (canon_key (fst r)) k
                               then map (fun pt => VRe (fst pt) (replace_ph sub (snd pt))) (snd r) else []) res.
@@ -439,8 +440,9 @@ Definition spec_sent_fail (ds : list directive) (q : request) (t : target) (o : 
   when_not (beq (u_rawpath (o_url o)) (spec_rawpath t (c_without c) (q_url q))) (tag "<rawpath>"%string) ++
   when_not (beq (u_query (o_url o)) (spec_query t (u_query (q_url q)))) (tag "<query>"%string) ++
   when_not (beq (o_urlhost o) (t_host t)) (tag "<urlhost>"%string) ++
-  when_not (existsb (fun v => beq (o_host o) (match v with Some (x :: r) => last_or (x :: r) [] | _ => t_host t end))
-                    (spec_req_values c q t K_HOST)) (tag "<host>"%string).
+  (* the Host the backend sees is the last Host value the rules produced, else the upstream's own *)
+  when_not (beq (o_host o) (match hlookup (o_hdr o) K_HOST with Some (x :: r) => last_or (x :: r) [] | _ => t_host t end))
+           (tag "<host>"%string).
 
 (* ---- spec for the response as seen by the client ---- *)
 Definition spec_skip : list bytes :=
